@@ -138,6 +138,17 @@ TEXT = {
         "note": "Trusted as C18; now is a parameter of the model (read by the harness within the same second).",
         "technique": "Lean 4 proof (per-mutator refinement lemma composed by induction over call sequences; decision logic) + correspondence check",
     },
+    "C06": {
+        "level": "PARTIAL, with an open known finding (F22). Lean theorems: in the transaction abstraction, work not committed is never visible however the transaction ends, "
+                 "committed work is entirely visible; the states an interruption of a replica action can leave are exactly the states between its transactions; actions that "
+                 "are one transaction (commit_operations, rebuild_working_set) are atomic; undo and sync are two transactions and a concrete state shows the in-between state "
+                 "is neither before nor after (C06_undo_is_two_transactions) — reproduced on the real code and listed as known finding. That SQLite implements the abstraction "
+                 "is checked: every action interrupted at every storage call index with reopen through a fresh handle, and SIGKILL of a child process at random instants, the "
+                 "reopened contents compared with the model.",
+        "design_ref": "DESIGN.md §5 C06",
+        "note": "Trusted: Lean kernel + standard axioms; SQLite's behaviour under power loss not exercised; ObsStorage wrapper.",
+        "technique": "Lean 4 proof (transaction abstraction, action = sequence of transactions, counterexample by decide) + fault-injection and kill -9 correspondence check",
+    },
     "C08": {
         "level": "Lean theorems about ChainSrv, the version-chain specification every backend is compared with: accepted iff the parent is the latest "
                  "version or none exists (C08_accept_iff); a rejection names the latest and leaves the state unchanged; the chain stays linear with "
